@@ -207,7 +207,7 @@ func ctxOpTemplateRules(r *Run, p *Prog, T *Terms, id func(string) string, dir s
 func runC17(r *Run, p *Prog) {
 	ro := DiscoverRoles(p)
 	T, cg := ro.T, ro.CG
-	ctxOpTemplateRules(r, p, T, func(x string) string { return x }, "")
+	r.Guard("D1", func() { ctxOpTemplateRules(r, p, T, func(x string) string { return x }, "") })
 	r.Floor("D1", 3)
 	r.Floor("D2", 12)
 	// ---- D4
@@ -286,6 +286,46 @@ func runC17(r *Run, p *Prog) {
 						continue
 					}
 					ok, why := deadlineDelegates(p, T, mf, named, m.name)
+					if ok {
+						// ... and to the pipe end that the same direction's I/O uses, with the setter of that direction
+						ioName := map[string]string{"read": "Read", "write": "Write"}[m.dir]
+						iof := p.SSA.LookupMethod(dyn, p.Pkgs[pkgVarlink].Types, ioName)
+						ioMember := ""
+						if iof != nil {
+							for _, cs2 := range callsIn(iof, false) {
+								if cn := cs2.Common; (cn.IsInvoke() && cn.Method.Name() == ioName) || (cn.StaticCallee() != nil && cn.StaticCallee().Name() == ioName) {
+									recv := cn.Value
+									if !cn.IsInvoke() && len(cn.Args) > 0 {
+										recv = cn.Args[0]
+									}
+									if mem := memberBehind(recv); mem != "" {
+										ioMember = mem
+									}
+								}
+							}
+						}
+						if ioMember == "" {
+							r.Ob("D6", named.Obj().Name()+"."+m.name, "the member the transport's "+ioName+" uses is identified", mf.Pos(), false, "cannot tell which pipe end "+ioName+" operates on")
+						} else {
+							for _, cs2 := range callsIn(mf, false) {
+								k := deadlineSetterKind(cs2.Common)
+								if k == "" {
+									continue
+								}
+								recv := cs2.Common.Value
+								if !cs2.Common.IsInvoke() && len(cs2.Common.Args) > 0 {
+									recv = cs2.Common.Args[0]
+								}
+								mem := memberBehind(recv)
+								if mem == "" {
+									continue // a call on the transport itself (another of its own setters): judged there
+								}
+								okEnd := mem == ioMember && (k == m.dir || k == "both")
+								r.Ob("D6", named.Obj().Name()+"."+m.name, "the "+m.dir+" deadline is armed on the pipe end "+ioName+" uses ("+ioMember+"), with the "+m.dir+" setter", cs2.Instr.Pos(), okEnd,
+									fmt.Sprintf("%s arms the %s deadline of member %s, but %s operates on member %s: the deadline (and with it cancellation) has no effect on a pending %s of this transport, whose helper then consumes and discards the next message", m.name, k, mem, ioName, ioMember, m.dir))
+							}
+						}
+					}
 					r.Ob("D6", named.Obj().Name()+"."+m.name, "the transport's "+m.name+" takes effect: nil is returned only after delegating to the wrapped pipe end", mf.Pos(), ok, why)
 				}
 			}
@@ -379,6 +419,35 @@ func ctxRooted(T *Terms, f *ssa.Function, v ssa.Value) (bool, string) {
 
 // deadlineDelegates: every nil return of the transport's deadline method follows a delegating call, or lies on the
 // failing branch of a comma-ok assertion that cannot fail for the dynamic types stored at the construction sites.
+// memberBehind names the struct member a value was loaded from, looking through type assertions and interface
+// conversions ("" if it is not a member load).
+func memberBehind(v ssa.Value) string {
+	for i := 0; i < 8; i++ {
+		switch x := v.(type) {
+		case *ssa.Extract:
+			v = x.Tuple
+		case *ssa.TypeAssert:
+			v = x.X
+		case *ssa.ChangeInterface:
+			v = x.X
+		case *ssa.MakeInterface:
+			v = x.X
+		case *ssa.ChangeType:
+			v = x.X
+		case *ssa.Field:
+			return fieldName(x.X, x.Field)
+		case *ssa.UnOp:
+			if fa, ok := x.X.(*ssa.FieldAddr); ok {
+				return fieldName(fa.X, fa.Field)
+			}
+			return ""
+		default:
+			return ""
+		}
+	}
+	return ""
+}
+
 func deadlineDelegates(p *Prog, T *Terms, mf *ssa.Function, named *types.Named, mname string) (bool, string) {
 	isDelegate := func(in ssa.Instruction) bool {
 		c, ok := in.(*ssa.Call)
